@@ -1,6 +1,7 @@
 package sim
 
 import (
+	"errors"
 	"fmt"
 	"math/big"
 	"runtime"
@@ -513,6 +514,12 @@ func (h *Hist) Produce(skip int) bool {
 	}
 	h.C.Checkpoint()
 	err := h.A.Produce(skip)
+	for tries := 0; err != nil && errors.Is(err, ErrNoProducerKey) && tries < 90; tries++ {
+		// that pillar cannot produce (nobody holds its producing key): its slot stays empty, the next slot's pillar is asked
+		skip++
+		h.C.Class("slot-of-a-pillar-without-producer-key-skipped")
+		err = h.A.Produce(skip)
+	}
 	if h.A.Preflight != nil && h.A.Preflight.Panic != nil {
 		h.Dead = true
 		h.C.Note("produce: %s", h.A.Preflight)
